@@ -2,7 +2,7 @@
 # seedrun.sh <patch.diff> <CHECK-ID>... : run checks against a scratch worktree of /repo with the patch applied.
 # (Equivalent to applying the patch to /repo and undoing it, without disturbing other jobs that build /repo.)
 set -u
-patch=$1; shift
+patch=$(realpath $1); shift
 wt=/tmp/seedwt-$$
 git -C /repo worktree add --detach $wt HEAD -q || exit 3
 if ! git -C $wt apply "$patch"; then echo "PATCH DOES NOT APPLY"; git -C /repo worktree remove --force $wt; exit 3; fi
